@@ -1,28 +1,28 @@
 import NmVerif.Containers.NDArrayObj
 import NmVerif.Lemmas.Addressing
+import NmVerif.Lemmas.NDObj
+import NmVerif.Lemmas.SliceDyn
+import NmVerif.Index.Reshape
 import NmVerif.Arr
 /-
-  C20 — Array objects keep their invariants under resize, write (and writes through mutable views).
+  C20 — Array objects keep their invariants under resize, write, copy/assign, cast, and writes through mutable views.
+
+  MODEL  NmVerif.NDObj (Containers/NDArrayObj.lean): `init` / `resize` / `write` / `fill` of ndarray_t (15 shape × buffer
+         kinds abstracted to (shape kind, buffer kind, layout)), hybrid_ndarray, dynamic_ndarray; `castInto` = the loop
+         of utility/cast.hpp (default-construct, resize — result ignored —, copy by row-major rank through
+         flatten / mutable_flatten); `kindCfg` = the destination kind resolved for a `cast(a, kind)` tag;
+         mutable views = `write` at the source index an indexing view (NmVerif.IxView) maps the destination index to.
+  SPEC   the class invariant `ObjInv`, NumPy's `astype` (same shape, every LOGICAL element converted), Python basic
+         indexing for the slice views (C05), "exactly the addressed element / buffer cell changes".
+  helpers: Lemmas/NDObj.lean.
 -/
 namespace NmVerif.Props.C20
 open NmVerif NmVerif.NDObj
 
-theorem resizeBuf_length (d : List Int) (n : Nat) : (resizeBuf d n).length = n := by
-  simp [resizeBuf]
+/-! ## construction, resize, write: the invariant in every reachable state -/
 
-theorem prod_replicate_one (k n : Nat) : prod (List.replicate k 1 ++ [n]) = n := by
-  induction k with
-  | zero => simp [prod]
-  | succ m ih => simp [List.replicate_succ, prod, ih]
-
-/-- a freshly constructed array satisfies the invariant -/
-theorem init_inv (c : Cfg) (h : CfgOk c) : ObjInv c (init c) := by
-  obtain ⟨hs, hb⟩ := h
-  unfold ObjInv init
-  refine ⟨?_, rfl, ?_, ?_⟩
-  · cases hsk : c.sk <;> cases hbk : c.bk <;> simp [prod, prod_replicate_one]
-  · cases hsk : c.sk <;> simp_all <;> omega
-  · cases hbk : c.bk <;> simp_all <;> omega
+/-- a freshly constructed array satisfies the invariant (`DefaultOk`: see `init_clipped_counterexample`) -/
+theorem init_inv (c : Cfg) (h : CfgOk c) (hd : DefaultOk c) : ObjInv c (init c) := init_objInv c h hd
 
 /-- a refused resize returns false and leaves shape, strides and contents unchanged -/
 theorem resize_refused_unchanged (c : Cfg) (st : St) (new : List Nat) (h : (resize c st new).2 = false) :
@@ -46,25 +46,13 @@ theorem resize_keeps_prefix (c : Cfg) (st : St) (new : List Nat) (k : Nat) (hk :
   · simp only [resize, hacc, if_true, resizeBuf, List.getElem?_take, hk2, List.getElem?_append_left hk]
   · simp [resize, hacc] at h
 
-theorem resize_inv (c : Cfg) (st : St) (new : List Nat) (hi : ObjInv c st) : ObjInv c (resize c st new).1 := by
-  unfold resize
-  split
-  · rename_i hacc
-    unfold accepts at hacc
-    simp only [Bool.and_eq_true] at hacc
-    obtain ⟨h1, h2⟩ := hacc
-    refine ⟨by simp [resizeBuf_length], rfl, ?_, ?_⟩
-    · obtain ⟨_, _, hk, _⟩ := hi
-      cases hsk : c.sk <;> simp_all <;> omega
-    · obtain ⟨_, _, _, hk⟩ := hi
-      cases hbk : c.bk <;> simp_all [resizeBuf_length]
-  · exact hi
+theorem resize_inv (c : Cfg) (st : St) (new : List Nat) (hi : ObjInv c st) : ObjInv c (resize c st new).1 :=
+  resize_objInv c st new hi
 
-theorem write_inv (c : Cfg) (st : St) (i : Idx) (v : Int) (hi : ObjInv c st) : ObjInv c (write st i v) := by
-  unfold ObjInv write at *; simpa using hi
+theorem write_inv (c : Cfg) (st : St) (i : Idx) (v : Int) (hi : ObjInv c st) : ObjInv c (write st i v) :=
+  write_objInv c st i v hi
 
-theorem fill_inv (c : Cfg) (st : St) (b : Int) (hi : ObjInv c st) : ObjInv c (fill st b) := by
-  unfold ObjInv fill at *; simpa using hi
+theorem fill_inv (c : Cfg) (st : St) (b : Int) (hi : ObjInv c st) : ObjInv c (fill st b) := fill_objInv c st b hi
 
 /-- one step preserves the invariant -/
 theorem step_inv (c : Cfg) (st : St) (op : Op) (hi : ObjInv c st) : ObjInv c (step c st op).1 := by
@@ -75,57 +63,58 @@ theorem step_inv (c : Cfg) (st : St) (op : Op) (hi : ObjInv c st) : ObjInv c (st
 
 /-- EVERY reachable state (any operation sequence of any length) satisfies the invariant:
     product of shape = element count, strides match shape and layout, kind constraints hold -/
-theorem reachable_inv (c : Cfg) (h : CfgOk c) (ops : List Op) : ObjInv c (run c (init c) ops) := by
+theorem reachable_inv (c : Cfg) (h : CfgOk c) (hd : DefaultOk c) (ops : List Op) : ObjInv c (run c (init c) ops) := by
   have key : ∀ (st : St), ObjInv c st → ObjInv c (run c st ops) := by
     induction ops with
     | nil => intro st hst; exact hst
     | cons o os ih => intro st hst; exact ih _ (step_inv c st o hst)
-  exact key _ (init_inv c h)
+  exact key _ (init_inv c h hd)
+
+/-- the strides used for ADDRESSING match shape and layout in every reachable state, for row- and column-major arrays
+    alike (what the harness reads from the offset functor, `astrides=`) -/
+theorem addressing_strides_match_layout (c : Cfg) (h : CfgOk c) (hd : DefaultOk c) (ops : List Op) :
+    (run c (init c) ops).strides = (if c.colMajor then colStrides (run c (init c) ops).shape else strides (run c (init c) ops).shape) := by
+  have := (reachable_inv c h hd ops).2.1
+  simpa [stridesOf] using this
 
 /-- distinct in-shape indices address distinct buffer cells, inside the buffer (either layout) -/
 theorem distinct_cells (c : Cfg) (st : St) (hi : ObjInv c st) (i j : Idx) (hI : InShape i st.shape) (hJ : InShape j st.shape)
-    (hne : i ≠ j) : computeOffset i st.strides ≠ computeOffset j st.strides ∧ computeOffset i st.strides < st.data.length := by
-  obtain ⟨hlen, hstr, _, _⟩ := hi
-  rw [hstr, hlen]
-  unfold stridesOf
-  split
-  · exact ⟨fun h => hne (colOffset_injective hI hJ h), colOffset_lt hI⟩
-  · exact ⟨fun h => hne (offset_injective hI hJ h), offset_lt hI⟩
+    (hne : i ≠ j) : computeOffset i st.strides ≠ computeOffset j st.strides ∧ computeOffset i st.strides < st.data.length :=
+  ⟨cells_distinct c st hi hI hJ hne, offset_in_buffer c st hi hI⟩
 
 /-- write then read: exactly the addressed element changes -/
 theorem write_read (c : Cfg) (st : St) (hi : ObjInv c st) (i j : Idx) (hI : InShape i st.shape) (hJ : InShape j st.shape) (v : Int) :
-    read? (write st i v) j = if i = j then some v else read? st j := by
-  unfold read? write
-  simp only [List.getElem?_set]
-  by_cases hij : i = j
-  · subst hij
-    have := (distinct_cells c st hi i i hI hI)
-    have hlt : computeOffset i st.strides < st.data.length := by
-      obtain ⟨hlen, hstr, _, _⟩ := hi
-      rw [hstr, hlen]; unfold stridesOf; split
-      · exact colOffset_lt hI
-      · exact offset_lt hI
-    simp [hlt]
-  · have := (distinct_cells c st hi i j hI hJ hij).1
-    simp [hij, this]
-
-/-- writing through a mutable indexing view (mutable_reshape / mutable_flatten / mutable_ref / mutable_slice)
-    at destination index `d` changes exactly the source element `map d` and nothing else -/
-theorem mutable_view_write_exact (c : Cfg) (st : St) (hi : ObjInv c st) (v : IxView) (hsrc : v.src = st.shape)
-    (hb : v.InBounds) (d : Idx) (hd : InShape d v.dst) (i : Idx) (hm : v.map d = some i) (j : Idx) (hJ : InShape j st.shape) (x : Int) :
-    read? (write st i x) j = if i = j then some x else read? st j :=
-  write_read c st hi i j (hsrc ▸ hb d hd i hm) hJ x
+    read? (write st i v) j = if i = j then some v else read? st j := read_write c st hi i j hI hJ v
 
 /-! non-vacuity -/
-example : CfgOk ⟨.fixedDim 2, .dyn, false⟩ ∧ CfgOk ⟨.dyn, .fixed 6, true⟩ ∧ CfgOk ⟨.bounded 3, .bounded 8, false⟩ := by
-  simp [CfgOk]
+example : CfgOk ⟨.fixedDim 2, .dyn, false⟩ ∧ CfgOk ⟨.dyn, .fixed 6, true⟩ ∧ CfgOk ⟨.bounded 3, .bounded 8, false⟩ ∧
+    CfgOk ⟨.const [2,3], .fixed 6, true⟩ ∧ DefaultOk ⟨.fixedDim 2, .dyn, false⟩ ∧ DefaultOk ⟨.clipped [2,6], .fixed 6, false⟩ := by
+  simp [CfgOk, DefaultOk, prod]
 example : (resize ⟨.dyn, .fixed 6, false⟩ (resize ⟨.dyn, .fixed 6, false⟩ (init ⟨.dyn, .fixed 6, false⟩) [2,3]).1 [2,2,2]).2 = false := by decide
 example : (resize ⟨.fixedDim 2, .dyn, false⟩ (init ⟨.fixedDim 2, .dyn, false⟩) [2,3]).2 = true := by decide
+example : (run ⟨.dyn, .dyn, true⟩ (init ⟨.dyn, .dyn, true⟩) [.resize [2,3], .fill 1, .write [1,0] 9]).strides = [1,2] := by decide
 
-end NmVerif.Props.C20
+/-- the default state of a clipped-shape, fixed-buffer array whose last maximum is below the buffer size breaks the
+    invariant: `ndarray_t<array<int,6>, tuple<clipped_size_t<2>,clipped_size_t<3>>>{}` has shape (1,3) over 6 cells
+    (known finding C20.clipped-default-shape); `DefaultOk` is exactly the guard that excludes it -/
+theorem init_clipped_counterexample :
+    let c : Cfg := ⟨.clipped [2,3], .fixed 6, false⟩
+    CfgOk c ∧ ¬ DefaultOk c ∧ (init c).shape = [1,3] ∧ (init c).data.length = 6 ∧ ¬ ObjInv c (init c) := by
+  refine ⟨by simp [CfgOk], by decide, by decide, by decide, ?_⟩
+  intro h
+  have := h.1
+  revert this
+  decide
 
-namespace NmVerif.Props.C20
-open NmVerif NmVerif.NDObj
+/-- a column-major array with a clipped shape, as coded before fixes/C20-clipped-colmajor-reverse.diff, addresses a (2,3)
+    array with strides (1,1) instead of (1,2): the distinct in-shape indices (0,1) and (1,0) are the same buffer cell
+    (known finding C20.clipped-colmajor-strides; replayed on the real headers) -/
+theorem clipped_colmajor_counterexample :
+    colStridesClippedAsCoded [2,3] = [1,1] ∧ colStrides [2,3] = [1,2] ∧ InShape [0,1] [2,3] ∧ InShape [1,0] [2,3] ∧
+    computeOffset [0,1] (colStridesClippedAsCoded [2,3]) = computeOffset [1,0] (colStridesClippedAsCoded [2,3]) ∧
+    computeOffset [0,1] (colStrides [2,3]) ≠ computeOffset [1,0] (colStrides [2,3]) := by decide
+
+/-! ## strides() as reported -/
 
 /-- the strides an array reports agree with its addressing strides for row-major arrays … -/
 theorem reportedStrides_rowMajor (c : Cfg) (st : St) (hi : ObjInv c st) (hc : c.colMajor = false) :
@@ -140,6 +129,232 @@ theorem reportedStrides_colMajor_counterexample :
     let st := (resize c (init c) [2,3]).1
     ObjInv c st ∧ reportedStrides st = [3,1] ∧ st.strides = [1,2] := by
   refine ⟨?_, by decide, by decide⟩
-  exact resize_inv _ _ _ (init_inv _ (by simp [CfgOk]))
+  exact resize_inv _ _ _ (init_inv _ (by simp [CfgOk]) (by simp [DefaultOk]))
+
+/-! ## cast -/
+
+/-- **cast preserves shape and (converted) values** — for every source kind/layout `cs`, every destination kind/layout
+    `cd` that can take the shape, every element conversion: the result exists, has the source's shape, satisfies the
+    invariant of the destination kind (element count, strides of ITS layout, …) and holds at every index the converted
+    LOGICAL element of the source — so a row↔column-major cast permutes the buffer but keeps every `a(i,j,…)` -/
+theorem cast_preserves_shape_and_values (cs cd : Cfg) (src : St) (conv : Int → Int)
+    (hs : ObjInv cs src) (hd : CfgOk cd) (hfit : castFits cd src.shape = true) :
+    ∃ r, castInto cd conv src = some r ∧ r.shape = src.shape ∧ ObjInv cd r ∧
+      ∀ idx, InShape idx src.shape → ∃ v, read? src idx = some v ∧ read? r idx = some (conv v) := by
+  have hr0 := castRet_objInv cd hd src.shape hfit
+  have hsh := castFits_shape cd src.shape hfit
+  obtain ⟨r, hf, hrs, hri, hrd⟩ := castLoop_spec cs cd conv src _ hs hr0 hsh (prod src.shape) (Nat.le_refl _)
+  refine ⟨r, hf, hrs, hri, fun idx hI => ?_⟩
+  obtain ⟨v, hv⟩ := read_isSome cs src hs hI
+  refine ⟨v, hv, ?_⟩
+  rw [hrd idx hI, if_pos (offset_lt hI), hv]; rfl
+
+/-- the same across layouts, spelled out: the result's strides are those of the OTHER layout and every logical
+    element is kept -/
+theorem cast_across_layouts (cs cd : Cfg) (src : St) (hs : ObjInv cs src) (hd : CfgOk cd)
+    (hfit : castFits cd src.shape = true) (hl : cd.colMajor = !cs.colMajor) :
+    ∃ r, castInto cd id src = some r ∧ r.shape = src.shape ∧ r.strides = stridesOf (!cs.colMajor) src.shape ∧
+      r.data.length = src.data.length ∧ ∀ idx, InShape idx src.shape → read? r idx = read? src idx := by
+  obtain ⟨r, h1, h2, h3, h4⟩ := cast_preserves_shape_and_values cs cd src id hs hd hfit
+  refine ⟨r, h1, h2, ?_, ?_, fun idx hI => ?_⟩
+  · rw [h3.2.1, h2, hl]
+  · rw [h3.1, h2, hs.1]
+  · obtain ⟨v, hv1, hv2⟩ := h4 idx hI
+    rw [hv1, hv2]; rfl
+
+/-- a cast never breaks the invariant of its result, even when the destination kind refuses the shape (the result then
+    has the destination's default shape: see `cast_refused_counterexample`) -/
+theorem cast_inv (cs cd : Cfg) (src : St) (conv : Int → Int) (hs : ObjInv cs src) (hd : CfgOk cd) (hdd : DefaultOk cd) :
+    ∃ r, castInto cd conv src = some r ∧ ObjInv cd r :=
+  castLoop_inv cs cd conv src _ hs (resize_objInv cd _ _ (init_objInv cd hd hdd)) (prod src.shape) (Nat.le_refl _)
+
+/-- every kind that is not clipped takes the shapes of its own states: `cast<T>(a)` (same kind, other element type)
+    is never refused -/
+theorem castFits_self (c : Cfg) (hc : CfgOk c) (hnc : ∀ ms, c.sk ≠ .clipped ms) (st : St) (hi : ObjInv c st) :
+    castFits c st.shape = true := by
+  obtain ⟨sk, bk, cm⟩ := c
+  obtain ⟨h1, h2, h3, h4⟩ := hi
+  obtain ⟨g1, g2, g3⟩ := hc
+  unfold castFits accepts
+  cases sk <;> cases bk <;> simp_all [init] <;> omega
+
+/-- **cast(dtype)**: `cast<T>(a)` keeps kind, layout and shape and converts every element with `static_cast<T>` -/
+theorem cast_dtype_preserves (c : Cfg) (hc : CfgOk c) (hnc : ∀ ms, c.sk ≠ .clipped ms) (src : St) (hs : ObjInv c src) (t : DType) :
+    ∃ r, castInto c (convTo t) src = some r ∧ r.shape = src.shape ∧ r.strides = src.strides ∧ ObjInv c r ∧
+      ∀ idx, InShape idx src.shape → ∃ v, read? src idx = some v ∧ read? r idx = some (convTo t v) := by
+  obtain ⟨r, h1, h2, h3, h4⟩ := cast_preserves_shape_and_values c c src (convTo t) hs hc (castFits_self c hc hnc src hs)
+  exact ⟨r, h1, h2, by rw [h3.2.1, h2, hs.2.1], h3, h4⟩
+
+/-- the element conversions are the C++ ones: the result lies in the range of `T`, is congruent to the source modulo
+    2^bits, and in-range values are unchanged -/
+theorem convTo_spec (v : Int) :
+    (-128 ≤ convTo .i8 v ∧ convTo .i8 v < 128 ∧ (convTo .i8 v - v) % 256 = 0 ∧ (-128 ≤ v → v < 128 → convTo .i8 v = v)) ∧
+    (0 ≤ convTo .u8 v ∧ convTo .u8 v < 256 ∧ (convTo .u8 v - v) % 256 = 0 ∧ (0 ≤ v → v < 256 → convTo .u8 v = v)) ∧
+    (-32768 ≤ convTo .i16 v ∧ convTo .i16 v < 32768 ∧ (convTo .i16 v - v) % 65536 = 0 ∧ (-32768 ≤ v → v < 32768 → convTo .i16 v = v)) ∧
+    convTo .i64 v = v ∧ convTo .f64 v = v := by
+  refine ⟨⟨?_, ?_, ?_, ?_⟩, ⟨?_, ?_, ?_, ?_⟩, ⟨?_, ?_, ?_, ?_⟩, rfl, rfl⟩ <;> simp only [convTo, wrapSigned] <;> omega
+
+/-- **cast(kind)**: the destination kind resolved for any kind tag from a source of shape `s` always takes that shape … -/
+theorem cast_kind_fits (k : KindTag) (s : List Nat) (hne : s ≠ []) (hp : 0 < prod s) :
+    CfgOk (kindCfg k s) ∧ castFits (kindCfg k s) s = true := by
+  have hl : 0 < s.length := List.length_pos_iff.mpr hne
+  constructor
+  · cases k with
+    | fixed => simp [kindCfg, CfgOk]
+    | hybrid => simp [kindCfg, CfgOk, hl, hp]
+    | dynamic => simp [kindCfg, CfgOk]
+    | nd sk bk => cases sk <;> cases bk <;> simp [kindCfg, CfgOk, hl, hp]
+  · cases k with
+    | fixed => simp [kindCfg, castFits]
+    | hybrid => simp [kindCfg, castFits, accepts, init]; omega
+    | dynamic => simp [kindCfg, castFits, accepts]
+    | nd sk bk =>
+      cases sk <;> cases bk <;> simp [kindCfg, castFits, accepts, init, zipWith_le_self, prod_replicate_one] <;> omega
+
+/-- … hence `cast(a, kind)` preserves shape and values for all 18 kind tags (fixed / hybrid / dynamic and the 15
+    ndarray kinds), whatever the source kind and layout -/
+theorem cast_kind_preserves (k : KindTag) (cs : Cfg) (src : St) (hs : ObjInv cs src) (hne : src.shape ≠ [])
+    (hp : 0 < prod src.shape) :
+    ∃ r, castInto (kindCfg k src.shape) id src = some r ∧ r.shape = src.shape ∧ ObjInv (kindCfg k src.shape) r ∧
+      ∀ idx, InShape idx src.shape → ∃ v, read? src idx = some v ∧ read? r idx = some v := by
+  obtain ⟨h1, h2⟩ := cast_kind_fits k src.shape hne hp
+  exact cast_preserves_shape_and_values cs _ src id hs h1 h2
+
+/-- sequences with casts: from a sane start, through any sequence of resizes, writes, fills, casts to sane kinds and
+    element-type casts, the run never gets stuck and the invariant of the CURRENT kind holds at the end -/
+theorem reachable_inv_with_casts (c0 : Cfg) (h0 : CfgOk c0) (hd0 : DefaultOk c0) (ops : List XOp)
+    (hops : ∀ cd, XOp.cast cd ∈ ops → CfgOk cd ∧ DefaultOk cd) :
+    ∃ c st, xrun (c0, init c0) ops = some (c, st) ∧ CfgOk c ∧ DefaultOk c ∧ ObjInv c st := by
+  have key : ∀ (ops : List XOp) (c : Cfg) (st : St), CfgOk c → DefaultOk c → ObjInv c st →
+      (∀ cd, XOp.cast cd ∈ ops → CfgOk cd ∧ DefaultOk cd) →
+      ∃ c' st', xrun (c, st) ops = some (c', st') ∧ CfgOk c' ∧ DefaultOk c' ∧ ObjInv c' st' := by
+    intro ops
+    induction ops with
+    | nil => intro c st hc hd hi _; exact ⟨c, st, rfl, hc, hd, hi⟩
+    | cons o os ih =>
+      intro c st hc hd hi hall
+      have hall' : ∀ cd, XOp.cast cd ∈ os → CfgOk cd ∧ DefaultOk cd := fun cd h => hall cd (List.mem_cons_of_mem _ h)
+      cases o with
+      | base b =>
+        obtain ⟨c', st', h1, h2⟩ := ih c (step c st b).1 hc hd (step_inv c st b hi) hall'
+        exact ⟨c', st', by simpa [xrun, xstep] using h1, h2⟩
+      | cast cd =>
+        obtain ⟨hcd, hdd⟩ := hall cd (by simp)
+        obtain ⟨r, hr1, hr2⟩ := cast_inv c cd st id hi hcd hdd
+        obtain ⟨c', st', h1, h2⟩ := ih cd r hcd hdd hr2 hall'
+        exact ⟨c', st', by simpa [xrun, xstep, hr1] using h1, h2⟩
+      | dcast t =>
+        obtain ⟨r, hr1, hr2⟩ := cast_inv c c st (convTo t) hi hc hd
+        obtain ⟨c', st', h1, h2⟩ := ih c r hc hd hr2 hall'
+        exact ⟨c', st', by simpa [xrun, xstep, hr1] using h1, h2⟩
+  exact key ops c0 (init c0) h0 hd0 (init_inv c0 h0 hd0) hops
+
+/-- a cast into a kind that REFUSES the shape silently keeps the destination's default shape and copies by wrapped
+    indices (known finding C20.cast-refused-resize): `cast<ndarray_t<array<int,6>,vector>>` of a (2,2) array has
+    shape (6), of a (2,2,2) array the last two elements overwrite the first two -/
+theorem cast_refused_counterexample :
+    let cs : Cfg := ⟨.dyn, .dyn, false⟩
+    let cd : Cfg := ⟨.dyn, .fixed 6, false⟩
+    let a := fill (resize cs (init cs) [2,2]).1 10
+    let b := fill (resize cs (init cs) [2,2,2]).1 10
+    ObjInv cs a ∧ castFits cd a.shape = false ∧
+    (castInto cd id a).map (fun r => (r.shape, r.data)) = some ([6], [10,11,12,13,0,0]) ∧
+    (castInto cd id b).map (fun r => (r.shape, r.data)) = some ([6], [16,17,12,13,14,15]) := by
+  refine ⟨?_, by decide, by decide, by decide⟩
+  exact fill_inv _ _ _ (resize_inv _ _ _ (init_inv _ (by simp [CfgOk]) (by simp [DefaultOk])))
+
+/-! non-vacuity (cast) -/
+-- (2,3) row-major → column-major: buffer permuted, logical elements kept
+example : (castInto ⟨.dyn, .dyn, true⟩ id (fill (resize ⟨.dyn, .dyn, false⟩ (init ⟨.dyn, .dyn, false⟩) [2,3]).1 300)).map
+    (fun r => (r.shape, r.strides, r.data)) = some ([2,3], [1,2], [300,303,301,304,302,305]) := by decide
+example : castFits ⟨.fixedDim 2, .bounded 8, false⟩ [2,3] = true ∧ castFits ⟨.dyn, .fixed 6, true⟩ [3,2] = true ∧
+    castFits ⟨.const [2,3], .dyn, false⟩ [2,3] = true ∧ castFits ⟨.bounded 3, .bounded 8, false⟩ [2,2,2] = true := by decide
+example : (castInto ⟨.dyn, .dyn, true⟩ (convTo .i8) (fill (resize ⟨.dyn, .dyn, true⟩ (init ⟨.dyn, .dyn, true⟩) [2,2]).1 126)).map
+    (·.data) = some [126, 127, -128, -127] := by decide
+example : kindCfg (.nd .l .f) [2,3] = ⟨.clipped [2,3], .fixed 6, false⟩ ∧ kindCfg .hybrid [2,3] = ⟨.fixedDim 2, .bounded 6, false⟩ := by decide
+-- hypotheses of cast_kind_fits / cast_kind_preserves, castFits_self / cast_dtype_preserves, reachable_inv_with_casts
+example : ([2,1,3] : List Nat) ≠ [] ∧ 0 < prod [2,1,3] := by decide
+example : (castInto (kindCfg (.nd .h .h) [2,1,3]) id (fill (init ⟨.const [2,1,3], .fixed 6, true⟩) 10)).map (fun r => (r.shape, r.strides, r.data)) =
+    some ([2,1,3], [3,3,1], [10,12,14,11,13,15]) := by decide
+example : ∀ ms, (⟨.dyn, .fixed 6, true⟩ : Cfg).sk ≠ .clipped ms := by intro ms h; cases h
+example : CfgOk ⟨.fixedDim 2, .bounded 8, true⟩ ∧ DefaultOk ⟨.fixedDim 2, .bounded 8, true⟩ ∧ ¬ DefaultOk ⟨.clipped [2,3], .fixed 6, true⟩ := by
+  refine ⟨by simp [CfgOk], by simp [DefaultOk], by decide⟩
+example : (xrun (⟨.dyn, .dyn, false⟩, init ⟨.dyn, .dyn, false⟩)
+    [.base (.resize [2,2]), .base (.fill 1), .cast ⟨.fixedDim 2, .bounded 8, true⟩, .dcast .u8, .base (.write [1,0] 7)]).map
+    (fun x => (x.2.shape, x.2.strides, x.2.data)) = some ([2,2], [1,2], [1,7,2,4]) := by decide
+
+/-! ## writes through mutable views -/
+
+/-- writing through a mutable indexing view (mutable_reshape / mutable_flatten / mutable_ref / mutable_slice)
+    at destination index `d` changes exactly the source element `map d` and nothing else -/
+theorem mutable_view_write_exact (c : Cfg) (st : St) (hi : ObjInv c st) (v : IxView) (hsrc : v.src = st.shape)
+    (hb : v.InBounds) (d : Idx) (hd : InShape d v.dst) (i : Idx) (hm : v.map d = some i) (j : Idx) (hJ : InShape j st.shape) (x : Int) :
+    read? (write st i x) j = if i = j then some x else read? st j :=
+  write_read c st hi i j (hsrc ▸ hb d hd i hm) hJ x
+
+/-- at buffer level: a write at an in-shape index changes exactly one cell of the source buffer, the one the layout
+    designates; shape, strides and buffer length are untouched -/
+theorem write_buffer_exact (c : Cfg) (st : St) (hi : ObjInv c st) (i : Idx) (hI : InShape i st.shape) : WriteExact st i :=
+  writeExact_of_inShape c st hi hI
+
+/-- **mutable_ref**: destination index = source index -/
+theorem mutable_ref_write_exact (c : Cfg) (st : St) (hi : ObjInv c st) :
+    WriteThroughExact st ⟨st.shape, st.shape, fun d => some d⟩ :=
+  writeThrough_of_inBounds c st hi _ rfl (fun _ hd _ hm => by cases hm; exact hd) (fun d _ => ⟨d, rfl⟩)
+
+/-- **mutable_reshape**: for every accepted target (with or without `-1`) every destination index writes exactly one
+    source element / buffer cell -/
+theorem mutable_reshape_write_exact (c : Cfg) (st : St) (hi : ObjInv c st) (hp : Pos st.shape) (dst : List Int) (v : IxView)
+    (hv : reshapeView st.shape dst = some v) : v.src = st.shape ∧ WriteThroughExact st v := by
+  simp only [reshapeView, Option.map_eq_some_iff] at hv
+  obtain ⟨s, _, rfl⟩ := hv
+  refine ⟨rfl, writeThrough_of_inBounds c st hi _ rfl ?_ (fun d _ => ⟨_, rfl⟩)⟩
+  intro d _ i hm
+  simp only [Option.some.injEq] at hm
+  subst hm
+  exact indices_inShape hp _
+
+/-- **mutable_flatten**: the view exists for positive extents, has shape `[size]`, and element `k` writes exactly the
+    source element of row-major rank `k` -/
+theorem mutable_flatten_write_exact (c : Cfg) (st : St) (hi : ObjInv c st) (hp : Pos st.shape) :
+    ∃ v, flattenView st.shape = some v ∧ v.dst = [prod st.shape] ∧ WriteThroughExact st v ∧
+      ∀ k, k < prod st.shape → v.map [k] = some (ndindex st.shape k) := by
+  have hpp : 0 < prod st.shape := prod_pos hp
+  have hsr : shapeReshape st.shape [(prod st.shape : Int)] = some [prod st.shape] := by
+    have h1 : ¬ ((prod st.shape : Int) = -1) := by omega
+    have h2 : ¬ ((prod st.shape : Int) ≤ 0) := by omega
+    simp [shapeReshape, countNegativeReshape, h1, h2]
+    omega
+  have hv : flattenView st.shape = some ⟨st.shape, [prod st.shape],
+      fun d => some (computeIndices (computeOffset d (strides [prod st.shape])) st.shape (strides st.shape))⟩ := by
+    simp [flattenView, reshapeView, hsr]
+  refine ⟨_, hv, rfl, (mutable_reshape_write_exact c st hi hp _ _ hv).2, ?_⟩
+  intro k _
+  simp [ndindex, strides, computeOffset, prod]
+
+/-- **mutable_slice**, packed and run-time encodings, EVERY valid basic index (the C05 domain `domEntries`: any rank,
+    integers, one ellipsis, ranges with omitted / negative / out-of-range bounds and any non-zero step, negative
+    included): the view exists and every destination index writes exactly one source element / buffer cell -/
+theorem mutable_slice_write_exact (c : Cfg) (st : St) (hi : ObjInv c st) (es : List Slice.Entry)
+    (hdom : Slice.domEntries st.shape es = true) :
+    ∃ v, Slice.sliceView st.shape es = some v ∧ Slice.dynamicSliceView st.shape es = some ⟨v.src, v.dst, Slice.dynamicSlice st.shape es⟩ ∧
+      v.src = st.shape ∧ WriteThroughExact st v ∧ WriteThroughExact st ⟨v.src, v.dst, Slice.dynamicSlice st.shape es⟩ := by
+  obtain ⟨sels, _, h2, h3⟩ := Slice.slice_dom st.shape es hdom
+  refine ⟨⟨st.shape, Slice.specShape sels, fun d => Slice.sliceIdx st.shape es d⟩, by simp [Slice.sliceView, h2], ?_, rfl, ?_, ?_⟩
+  · simp [Slice.dynamicSliceView, Slice.shape_packed_eq_dynamic _ _ _ h2]
+  · intro d hd
+    obtain ⟨i, _, a2, a3⟩ := h3 d hd
+    exact ⟨i, a2, writeExact_of_inShape c st hi a3⟩
+  · intro d hd
+    obtain ⟨i, _, a2, a3⟩ := h3 d hd
+    exact ⟨i, Slice.idx_packed_eq_dynamic _ _ _ _ a2, writeExact_of_inShape c st hi a3⟩
+
+/-! non-vacuity (mutable views) -/
+-- a[::-1, 1:] on a column-major (2,3) array: destination (0,1) is source (1,2), buffer cell 1*1 + 2*2 = 5
+example : Slice.domEntries [2,3] [.range none none (some (-1)), .range2 (some 1) none] = true := by decide
+example : (Slice.sliceView [2,3] [.range none none (some (-1)), .range2 (some 1) none]).bind (fun v => v.map [0,1]) = some [1,2] := by decide
+example : (write (fill (resize ⟨.dyn, .dyn, true⟩ (init ⟨.dyn, .dyn, true⟩) [2,3]).1 0) [1,2] (-7)).data = [0,1,2,3,4,-7] := by decide
+example : (reshapeView [2,3] [3,-1]).bind (fun v => v.map [2,1]) = some [1,2] := by decide
+example : Pos [2,3] ∧ (flattenView [2,3]).bind (fun v => v.map [4]) = some [1,1] := by decide
 
 end NmVerif.Props.C20
